@@ -20,10 +20,10 @@ Section AnyField.
   Local Notation row_at := (row_at F fadd fmul).
   Local Notation centre_nm := (centre_nm F fadd fmul).
 
-  (* [k] is the mm -> nm factor (10^6 in the code), [half] any element with
-     half + half = 1 (0.5 in the code) *)
+  (* [k] is the mm -> nm factor (10^6 in the code) and [half] the 0.5 of the
+     code: the relation holds for ANY two elements, because the same [half]
+     defines the centre of a voxel and the compensation *)
   Lemma half_voxel_generic : forall (k half : F) (a : mat4 F) (s i : vec3 F),
-    half + half = f1 ->
     fst (fst s) <> f0 -> snd (fst s) <> f0 -> snd s <> f0 ->
     let '(r1, r2, r3, r4) := a in
     let '(m1, m2, m3, m4) := info_transform k half a s in
@@ -32,21 +32,12 @@ Section AnyField.
     row_at m3 (centre_nm k half s i) = k * row_at r3 i.
   Proof.
     intros k half [[[[[[a11 a12] a13] t1] [[[a21 a22] a23] t2]] [[[a31 a32] a33] t3]] [[[l1 l2] l3] l4]]
-           [[s1 s2] s3] [[i1 i2] i3] Hh H1 H2 H3.
+           [[s1 s2] s3] [[i1 i2] i3] H1 H2 H3.
     cbn [fst snd] in H1, H2, H3.
     unfold TrAffine.info_transform, TrAffine.nifti_to_ng, TrAffine.scale_row, TrAffine.last_row,
            TrAffine.resolution_of, TrAffine.shift_row, TrAffine.row_at, TrAffine.centre_nm.
     cbv beta iota zeta.
-    repeat split.
-    - transitivity (k * (a11 * i1 + a12 * i2 + a13 * i3 + t1) +
-                    (half + half - f1) * k * (a11 + a12 + a13)); [field; auto|].
-      rewrite Hh. ring.
-    - transitivity (k * (a21 * i1 + a22 * i2 + a23 * i3 + t2) +
-                    (half + half - f1) * k * (a21 + a22 + a23)); [field; auto|].
-      rewrite Hh. ring.
-    - transitivity (k * (a31 * i1 + a32 * i2 + a33 * i3 + t3) +
-                    (half + half - f1) * k * (a31 + a32 + a33)); [field; auto|].
-      rewrite Hh. ring.
+    repeat split; field; auto.
   Qed.
 
   (* the documented contract of nifti_to_neuroglancer_transform on its own:
@@ -121,11 +112,11 @@ Proof.
                                          if_resolution fst snd].
   unfold layout_ok in Hl. destruct is_rgb.
   - destruct shape as [|a [|b [|c [|? ?]]]]; try discriminate.
-    cbn. repeat split; try reflexivity.
-    repeat constructor; apply Qred_correct.
+    cbn -[Qred Qmult million]. repeat split; try reflexivity.
+    repeat (constructor; [apply Qred_correct|]); constructor.
   - destruct shape as [|a [|b [|c [|e [|? ?]]]]]; try discriminate.
-    + cbn. repeat split; try reflexivity. repeat constructor; apply Qred_correct.
-    + cbn. repeat split; try reflexivity. repeat constructor; apply Qred_correct.
+    + cbn -[Qred Qmult million]. repeat split; try reflexivity. repeat (constructor; [apply Qred_correct|]); constructor.
+    + cbn -[Qred Qmult million]. repeat split; try reflexivity. repeat (constructor; [apply Qred_correct|]); constructor.
 Qed.
 
 (* sharding option: accepted exactly for three comma-separated integers in [0, 2^64) *)
@@ -159,3 +150,126 @@ Proof.
   destruct (py_int a), (py_int b), (py_int c); auto.
   destruct (_ || _ || _); auto. destruct (_ || _ || _); auto. left. eexists. reflexivity.
 Qed.
+
+(* ================= compact URL form ================= *)
+Open Scope N_scope.
+
+Lemma join_with_cons : forall sep x xs,
+  join_with sep (x :: xs) = x ++ concat (map (fun r => sep :: r) xs).
+Proof.
+  intros sep x xs. revert x. induction xs as [|y ys IH]; intro x.
+  - cbn. rewrite app_nil_r. reflexivity.
+  - change (join_with sep (x :: y :: ys)) with (x ++ sep :: join_with sep (y :: ys)).
+    rewrite IH. reflexivity.
+Qed.
+
+Lemma scan_tok : forall t rest cur row out, forallb tok_char t = true ->
+  compact_scan (t ++ rest) (CTok cur row) out = compact_scan rest (CTok (rev t ++ cur) row) out.
+Proof.
+  induction t as [|c t IH]; intros rest cur row out H; [reflexivity|].
+  cbn [forallb] in H. apply andb_prop in H as [Hc Ht].
+  unfold tok_char in Hc. apply negb_true_iff in Hc.
+  apply orb_false_iff in Hc as [Hc H93]. apply orb_false_iff in Hc as [H95 H91].
+  cbn [List.app compact_scan]. rewrite H95, H93, H91.
+  rewrite (IH rest (c :: cur) row out Ht). cbn [rev]. rewrite <- app_assoc. reflexivity.
+Qed.
+
+Lemma clean_nonempty : forall t, clean_token t = true -> t <> [] /\ forallb tok_char t = true.
+Proof. intros [|c t] H; [discriminate|]. split; [discriminate | exact H]. Qed.
+
+Lemma rev_nonempty : forall (t : list N), t <> [] -> exists c l, rev t ++ [] = c :: l.
+Proof.
+  intros t H. rewrite app_nil_r. destruct (rev t) as [|c l] eqn:E.
+  - apply (f_equal (@rev N)) in E. rewrite rev_involutive in E. cbn in E. contradiction.
+  - eauto.
+Qed.
+
+Lemma scan_row_tokens : forall toks rest row out, toks <> [] -> forallb clean_token toks = true ->
+  compact_scan (join_with 95 toks ++ 93 :: rest) (CTok [] row) out
+  = compact_scan rest CAfterRow ((rev row ++ toks) :: out).
+Proof.
+  induction toks as [|t toks IH]; intros rest row out Hne Hc; [contradiction|].
+  cbn [forallb] in Hc. apply andb_prop in Hc as [Ht Hr].
+  destruct (clean_nonempty t Ht) as [Htne Htc].
+  destruct (rev_nonempty t Htne) as (c & l & E).
+  destruct toks as [|t' r].
+  - cbn [join_with]. rewrite (scan_tok t _ [] row out Htc). rewrite E.
+    cbn [compact_scan N.eqb Pos.eqb].
+    rewrite <- E, app_nil_r, rev_involutive. cbn [rev]. reflexivity.
+  - change (join_with 95 (t :: t' :: r)) with (t ++ 95 :: join_with 95 (t' :: r)).
+    rewrite <- app_assoc. rewrite (scan_tok t _ [] row out Htc). rewrite E.
+    cbn [List.app compact_scan N.eqb Pos.eqb].
+    rewrite <- E, app_nil_r, rev_involutive.
+    rewrite (IH rest (t :: row) out); [|discriminate|exact Hr].
+    cbn [rev]. rewrite <- app_assoc. reflexivity.
+Qed.
+
+Definition row_text (r : list jentry) : list N := bracket (join_with 95 (map entry_text r)).
+Definition row_clean (r : list jentry) : bool := forallb clean_token (map entry_text r).
+
+Lemma scan_row_body : forall r rest out, row_clean r = true ->
+  compact_scan (join_with 95 (map entry_text r) ++ 93 :: rest) (CTok [] []) out
+  = compact_scan rest CAfterRow (map entry_text r :: out).
+Proof.
+  intros r rest out Hc. destruct (map entry_text r) as [|t ts] eqn:E.
+  - reflexivity.
+  - rewrite (scan_row_tokens (t :: ts) rest [] out); [reflexivity|discriminate|].
+    unfold row_clean in Hc. rewrite E in Hc. exact Hc.
+Qed.
+
+Lemma scan_first_row : forall r rest out, row_clean r = true ->
+  compact_scan (row_text r ++ rest) CRowStart out = compact_scan rest CAfterRow (map entry_text r :: out).
+Proof.
+  intros r rest out Hc. unfold row_text, bracket.
+  change ((91 :: join_with 95 (map entry_text r) ++ [93]) ++ rest)
+    with (91 :: ((join_with 95 (map entry_text r) ++ [93]) ++ rest)).
+  rewrite <- app_assoc. cbn [compact_scan N.eqb Pos.eqb]. apply scan_row_body. exact Hc.
+Qed.
+
+Lemma scan_next_row : forall r rest out, row_clean r = true ->
+  compact_scan (95 :: row_text r ++ rest) CAfterRow out = compact_scan rest CAfterRow (map entry_text r :: out).
+Proof.
+  intros r rest out Hc. unfold row_text, bracket.
+  change ((91 :: join_with 95 (map entry_text r) ++ [93]) ++ rest)
+    with (91 :: ((join_with 95 (map entry_text r) ++ [93]) ++ rest)).
+  rewrite <- app_assoc. cbn [compact_scan N.eqb Pos.eqb]. apply scan_row_body. exact Hc.
+Qed.
+
+Lemma scan_more_rows : forall rows out, forallb row_clean rows = true ->
+  compact_scan (concat (map (fun r => 95 :: r) (map row_text rows)) ++ [93]) CAfterRow out
+  = Some (rev out ++ map (map entry_text) rows).
+Proof.
+  induction rows as [|r rows IH]; intros out Hc.
+  - cbn. rewrite app_nil_r. reflexivity.
+  - cbn [forallb] in Hc. apply andb_prop in Hc as [Hr Hrs].
+    cbn [map concat]. rewrite <- app_assoc.
+    change ((95 :: row_text r) ++ concat (map (fun r0 => 95 :: r0) (map row_text rows)) ++ [93])
+      with (95 :: row_text r ++ (concat (map (fun r0 => 95 :: r0) (map row_text rows)) ++ [93])).
+    rewrite (scan_next_row r _ out Hr). rewrite (IH _ Hrs).
+    cbn [rev map]. rewrite <- app_assoc. reflexivity.
+Qed.
+
+Lemma compact_parse_back_lemma : forall m, forallb row_clean m = true ->
+  compact_parse (compact_json m) = Some (map (map entry_text) m).
+Proof.
+  intros m Hc. unfold compact_parse, compact_json, bracket.
+  fold row_text. change (map (fun r => row_text r) m) with (map row_text m).
+  destruct m as [|r rows]; [reflexivity|].
+  cbn [forallb] in Hc. apply andb_prop in Hc as [Hr Hrs].
+  cbn [map]. rewrite join_with_cons.
+  cbn [compact_scan N.eqb Pos.eqb]. rewrite <- app_assoc.
+  rewrite (scan_first_row r _ [] Hr). rewrite (scan_more_rows rows _ Hrs). reflexivity.
+Qed.
+
+(* integer-valued entries (text ending in ".0") print as Python prints the integer *)
+Lemma integer_entries_lemma : forall e z,
+  je_int e = Some z -> ends_dot0 (je_repr e) = true -> entry_text e = dec_of_Z z.
+Proof. intros e z Hi Hd. unfold entry_text. rewrite Hi, Hd. reflexivity. Qed.
+
+Lemma other_entries_lemma : forall e,
+  je_int e = None \/ ends_dot0 (je_repr e) = false -> entry_text e = je_repr e.
+Proof.
+  intros e [H|H]; unfold entry_text; rewrite H; [reflexivity|].
+  destruct (je_int e); reflexivity.
+Qed.
+Close Scope N_scope.
